@@ -208,9 +208,561 @@ Proof.
     autorewrite with blen. zfold. zbool.
     repeat hstep. rewrite Hd. unfold sixfrag_FIRST, sixfrag_NEXT. zfold. zbool. cbn [obind negb andb].
     repeat hstep. rewrite !be_dec2, Hsz. cbn [obind].
-    repeat hstep. rewrite Hd. zfold. cbn [obind].
+    unfold sixfrag_dispatch. repeat hstep. rewrite Hd. zfold. cbn [obind].
     repeat hstep.
     replace (b2 * 256 + b3) with tag by lia.
     split; [reflexivity|]. split; [reflexivity|].
     apply (wb_from_tail [b0; b1; b2; b3; off]). reflexivity.
+Qed.
+
+Lemma sixfrag_check_len_inv b : sixfrag_check_len b = Ok tt ->
+  exists x, wb_get_u8 b 0 = Ok x /\
+    ((Z.shiftr x 3 = sixfrag_FIRST /\ 4 <= blen b) \/ (Z.shiftr x 3 = sixfrag_NEXT /\ 5 <= blen b)).
+Proof.
+  unfold sixfrag_check_len, sixfrag_dispatch. zfold.
+  destruct (blen b =? 0) eqn:E0; [intros HH; discriminate HH|].
+  destruct (wb_get_u8 b 0) as [x| |] eqn:Ex; cbn [obind]; try (intros HH; discriminate HH).
+  destruct (Z.shiftr x 3 =? 24) eqn:E1.
+  - destruct (4 <=? blen b) eqn:E2; [|intros HH; discriminate HH]. intros _. exists x. bsplit. unfold sixfrag_FIRST, sixfrag_NEXT. zfold. auto.
+  - destruct (Z.shiftr x 3 =? 28) eqn:E3; [|intros HH; discriminate HH].
+    destruct (5 <=? blen b) eqn:E2; [|intros HH; discriminate HH]. intros _. exists x. bsplit. unfold sixfrag_FIRST, sixfrag_NEXT. zfold. auto.
+Qed.
+
+(* C07-style: after new_checked no accessor panics *)
+Lemma sixfrag_accessors_safe b : sixfrag_new_checked b = Ok tt ->
+  sixfrag_datagram_size b <> Panic /\ sixfrag_datagram_tag b <> Panic /\
+  sixfrag_datagram_offset b <> Panic /\ sixfrag_is_first b <> Panic /\ sixfrag_payload b <> Panic.
+Proof.
+  unfold sixfrag_new_checked. intros H.
+  destruct (sixfrag_check_len b) as [[]| |] eqn:E; cbn [obind] in H; try discriminate.
+  apply sixfrag_check_len_inv in E. destruct E as (x & Ex & Hx).
+  unfold sixfrag_datagram_size, sixfrag_datagram_tag, sixfrag_datagram_offset, sixfrag_is_first,
+    sixfrag_payload, sixfrag_dispatch, wb_get_u16. zfold. rewrite Ex. cbn [obind].
+  assert (H4 : 4 <= blen b) by (destruct Hx as [[_ ?]|[_ ?]]; lia).
+  repeat split.
+  - apply obind_nopanic; [apply wb_get_be_nopanic; lia | discriminate].
+  - apply wb_get_be_nopanic; lia.
+  - destruct Hx as [[-> _]|[-> H5]]; unfold sixfrag_FIRST, sixfrag_NEXT; zfold; cbn [obind].
+    + discriminate.
+    + apply wb_get_u8_nopanic; lia.
+  - discriminate.
+  - destruct Hx as [[-> _]|[-> H5]]; unfold sixfrag_FIRST, sixfrag_NEXT; zfold; cbn [obind];
+      apply wb_from_nopanic; lia.
+Qed.
+
+(* Repr::parse / new_checked / SixlowpanPacket::dispatch never panic, on any octet string *)
+Lemma sixfrag_check_len_total b : sixfrag_check_len b <> Panic.
+Proof.
+  unfold sixfrag_check_len, sixfrag_dispatch. zfold. pose proof (blen_nonneg b).
+  destruct (blen b =? 0) eqn:E0; [discriminate|]. bsplit.
+  rewrite wb_get_u8_ok by lia. cbn [obind]. nopanic.
+Qed.
+
+Lemma sixfrag_new_checked_total b : sixfrag_new_checked b <> Panic.
+Proof.
+  unfold sixfrag_new_checked.
+  destruct (sixfrag_check_len b) as [[]| |] eqn:E; cbn [obind]; try discriminate.
+  - apply sixfrag_check_len_inv in E. destruct E as (x & Ex & _).
+    unfold sixfrag_dispatch. zfold. rewrite Ex. cbn [obind]. nopanic.
+  - exfalso. exact (sixfrag_check_len_total b E).
+Qed.
+
+Lemma sixfrag_parse_total b : sixfrag_parse b <> Panic.
+Proof.
+  unfold sixfrag_parse.
+  destruct (sixfrag_check_len b) as [[]| |] eqn:E; cbn [obind]; try discriminate.
+  - apply sixfrag_check_len_inv in E. destruct E as (x & Ex & Hx).
+    assert (H4 : 4 <= blen b) by (destruct Hx as [[_ ?]|[_ ?]]; lia).
+    unfold sixfrag_datagram_size, sixfrag_datagram_tag, sixfrag_datagram_offset, sixfrag_dispatch, wb_get_u16.
+    zfold. rewrite Ex.
+    apply obind_nopanic; [apply obind_nopanic; [apply wb_get_be_nopanic; lia | discriminate]|]. intros sz _.
+    apply obind_nopanic; [apply wb_get_be_nopanic; lia|]. intros tg _. cbn [obind].
+    destruct Hx as [[-> _]|[-> H5]]; unfold sixfrag_FIRST, sixfrag_NEXT; zfold; cbn [obind]; try discriminate.
+    apply obind_nopanic; [apply wb_get_u8_nopanic; lia | discriminate].
+  - exfalso. exact (sixfrag_check_len_total b E).
+Qed.
+
+Lemma sixlowpan_dispatch_total b : sixlowpan_dispatch b <> Panic.
+Proof.
+  unfold sixlowpan_dispatch. pose proof (blen_nonneg b).
+  destruct (blen b =? 0) eqn:E0; [discriminate|]. bsplit.
+  rewrite wb_get_u8_ok by lia. cbn [obind]. nopanic.
+Qed.
+
+(* the round trip: for ALL field values the format can hold, ANY old buffer content *)
+Lemma sixfrag_roundtrip r b : sixfrag_wf r = true -> bytes_ok b = true ->
+  sixfrag_buffer_len r <= blen b ->
+  exists bs, sixfrag_emit r b = Ok bs /\ blen bs = blen b /\
+             firstn (Z.to_nat (sixfrag_buffer_len r)) bs = sixfrag_bytes r /\
+             skipn (Z.to_nat (sixfrag_buffer_len r)) bs = skipn (Z.to_nat (sixfrag_buffer_len r)) b /\
+             sixfrag_parse bs = Ok r /\
+             sixfrag_payload bs = Ok (skipn (Z.to_nat (sixfrag_buffer_len r)) b).
+Proof.
+  intros Hwf Hb Hl. eexists. split; [apply sixfrag_emit_spec; assumption|].
+  pose proof (sixfrag_bytes_len r) as Hbl.
+  assert (Hn : 0 <= sixfrag_buffer_len r) by (destruct r; cbn; zfold; lia).
+  assert (Hlen : length (sixfrag_bytes r) = Z.to_nat (sixfrag_buffer_len r)) by (unfold blen in Hbl; lia).
+  destruct (sixfrag_parse_bytes r (skipn (Z.to_nat (sixfrag_buffer_len r)) b) Hwf) as (Hp & _ & Hpl).
+  repeat split; try assumption.
+  - rewrite blen_app, Hbl, blen_skipn by lia. lia.
+  - rewrite firstn_app, <- Hlen, firstn_all, Nat.sub_diag. cbn [firstn]. apply app_nil_r.
+  - rewrite skipn_app, <- Hlen, skipn_all, Nat.sub_diag. reflexivity.
+Qed.
+
+Lemma sixfrag_emit_ignores_old_bytes r b1 b2 : sixfrag_wf r = true ->
+  bytes_ok b1 = true -> bytes_ok b2 = true ->
+  sixfrag_buffer_len r <= blen b1 -> sixfrag_buffer_len r <= blen b2 ->
+  omap (firstn (Z.to_nat (sixfrag_buffer_len r))) (sixfrag_emit r b1) =
+  omap (firstn (Z.to_nat (sixfrag_buffer_len r))) (sixfrag_emit r b2).
+Proof.
+  intros Hwf H1 H2 L1 L2. rewrite !sixfrag_emit_spec by assumption. cbn [omap].
+  pose proof (sixfrag_bytes_len r) as Hbl.
+  assert (Hn : 0 <= sixfrag_buffer_len r) by (destruct r; cbn; zfold; lia).
+  assert (Hlen : length (sixfrag_bytes r) = Z.to_nat (sixfrag_buffer_len r)) by (unfold blen in Hbl; lia).
+  rewrite !firstn_app, <- Hlen, !firstn_all, Nat.sub_diag. reflexivity.
+Qed.
+
+
+(* ================================================================================
+   LOWPAN_NHC UDP header
+   ================================================================================ *)
+
+Lemma wb_set_slice_tail h t lo hi v : lo = blen h -> hi = blen h + blen t -> blen v = blen t ->
+  wb_set_slice (h ++ t) lo hi v = Ok (h ++ v).
+Proof.
+  intros -> -> Hv. unfold wb_set_slice. rewrite blen_app.
+  pose proof (blen_nonneg h). pose proof (blen_nonneg t). zbool.
+  rewrite firstn_app_l, skipn_all2 by (rewrite ?app_length; unfold blen in *; lia).
+  replace (Z.to_nat (blen h)) with (length h) by (unfold blen; lia). rewrite firstn_all, app_nil_r. reflexivity.
+Qed.
+
+Definition nhc_hb (c p : Z) : Z := Z.lor (Z.land (Z.lor (Z.land c 7) 240) 252) p.
+Lemma nhc_hb_ports : forall c p, 0 <= c < 256 -> 0 <= p < 4 -> Z.land (Z.shiftr (nhc_hb c p) 0) 3 = p.
+Proof. unfold nhc_hb. by_range2 256%nat 4%nat. Qed.
+Lemma nhc_hb_ck : forall c p, 0 <= c < 256 -> 0 <= p < 4 -> Z.lor (Z.land (nhc_hb c p) 251) 0 = 240 + p.
+Proof. unfold nhc_hb. by_range2 256%nat 4%nat. Qed.
+Lemma nhc_hb2_ports : forall p, 0 <= p < 4 -> Z.land (Z.shiftr (240 + p) 0) 3 = p.
+Proof. by_range1 4%nat. Qed.
+Lemma nhc_44_bits : forall a b, 0 <= a < 16 -> 0 <= b < 16 ->
+  Z.lor (Z.shiftl (a mod 256) 4 mod 256) (b mod 256) = a * 16 + b.
+Proof. by_range2 16%nat 16%nat. Qed.
+
+(* the checksum value put on the wire for a computed value [ck] *)
+Definition nhc_ck_tx (ck : Z) : Z := if ck =? 0 then 65535 else ck.
+
+(* the header octets for ports [r] and transmitted checksum [ck] *)
+Definition nhc_udp_hdr_bytes (r : nhc_ports) (ck : Z) : list Z :=
+  let sp := np_src r in let dp := np_dst r in
+  if nhc_port_4bit sp && nhc_port_4bit dp then
+    [243; (sp - 61616) * 16 + (dp - 61616)] ++ be_enc2 ck
+  else if nhc_port_8bit sp then [242; sp - 61440] ++ be_enc2 dp ++ be_enc2 ck
+  else if nhc_port_8bit dp then [241] ++ be_enc2 sp ++ [dp - 61440] ++ be_enc2 ck
+  else [240] ++ be_enc2 sp ++ be_enc2 dp ++ be_enc2 ck.
+
+
+(* ---------- the checksum value is a u16 ---------- *)
+
+Lemma wb_propagate_range w : 0 <= w < 4294967296 -> 0 <= wb_propagate_carries w <= 65535.
+Proof. unfold wb_propagate_carries. cbv zeta. lia. Qed.
+
+Lemma wb_sum16_range_n n : forall l, (length l <= n)%nat -> bytes_ok l = true ->
+  0 <= wb_sum16 l <= 65535 * blen l.
+Proof.
+  induction n as [|n IH]; intros l Hn Hb.
+  - destruct l; [cbn; unfold blen; cbn; lia | cbn in Hn; lia].
+  - destruct l as [|a [|b t]].
+    + cbn. unfold blen. cbn. lia.
+    + cbn [wb_sum16]. cbn [bytes_ok forallb] in Hb. bsplit. unfold blen. cbn [length]. lia.
+    + cbn [wb_sum16]. cbn [bytes_ok forallb] in Hb. bsplit.
+      assert (Ht : bytes_ok t = true) by assumption.
+      specialize (IH t ltac:(cbn in Hn; lia) Ht). autorewrite with blen. lia.
+Qed.
+
+Lemma wb_sum16_range l : bytes_ok l = true -> 0 <= wb_sum16 l <= 65535 * blen l.
+Proof. apply (wb_sum16_range_n (length l)). lia. Qed.
+
+Lemma wb_cksum_data_range l : bytes_ok l = true -> blen l < 65536 ->
+  0 <= wb_cksum_data l <= 65535.
+Proof.
+  intros Hb Hl. unfold wb_cksum_data. apply wb_propagate_range.
+  pose proof (wb_sum16_range l Hb). pose proof (blen_nonneg l). nia.
+Qed.
+
+Lemma wb_pseudo_header_range src dst proto len :
+  is_arr 16 src = true -> is_arr 16 dst = true -> 0 <= proto < 256 ->
+  0 <= wb_pseudo_header src dst proto len <= 65535.
+Proof.
+  intros Hs Hd Hp. unfold is_arr in *. bsplit.
+  unfold wb_pseudo_header, wb_cksum_combine. cbn [fold_left].
+  pose proof (wb_cksum_data_range src ltac:(assumption) ltac:(lia)).
+  pose proof (wb_cksum_data_range dst ltac:(assumption) ltac:(lia)).
+  assert (Hb3 : bytes_ok ([0; proto] ++ be_enc2 len) = true).
+  { rewrite bytes_ok_app, be_enc2_bytes. cbn [bytes_ok forallb]. unfold is_u8. zbool. reflexivity. }
+  pose proof (wb_cksum_data_range _ Hb3 ltac:(autorewrite with blen; unfold be_enc2, blen; cbn [length]; lia)).
+  apply wb_propagate_range. lia.
+Qed.
+
+Lemma nhc_udp_cksum_range src dst sp dp payload ck :
+  is_arr 16 src = true -> is_arr 16 dst = true -> 0 <= sp < 65536 -> 0 <= dp < 65536 ->
+  bytes_ok payload = true -> blen payload < 65528 ->
+  nhc_udp_cksum src dst sp dp payload = Ok ck -> 0 <= ck < 65536.
+Proof.
+  intros Hs Hd Hsp Hdp Hb Hl. unfold nhc_udp_cksum, nhc_udp_len_overflow, nhc_udp_sum_words. cbv zeta.
+  pose proof (blen_nonneg payload).
+  pose proof (wb_pseudo_header_range src dst nhc_PROTO_UDP ((blen payload + 8) mod 4294967296) Hs Hd
+                ltac:(unfold nhc_PROTO_UDP; lia)).
+  destruct (65535 <? blen payload mod 65536 + 8) eqn:E; [intros HH; discriminate HH|].
+  apply Z.ltb_ge in E.
+  intros HH. injection HH as <-.
+  pose proof (wb_cksum_data_range payload Hb ltac:(lia)).
+  unfold wb_cksum_combine. cbn [fold_left].
+  match goal with |- context [wb_propagate_carries ?w] =>
+    pose proof (wb_propagate_range w ltac:(lia)) end.
+  lia.
+Qed.
+
+Lemma nhc_udp_cksum_ok src dst sp dp payload : blen payload < 65528 ->
+  exists ck, nhc_udp_cksum src dst sp dp payload = Ok ck.
+Proof.
+  intros Hl. unfold nhc_udp_cksum, nhc_udp_len_overflow. cbv zeta. pose proof (blen_nonneg payload).
+  replace (65535 <? blen payload mod 65536 + 8) with false by (symmetry; apply Z.ltb_ge; lia).
+  eauto.
+Qed.
+
+(* common tail of the four port forms, after set_ports: [H] explicit header cells, first cell [nhc_hb c p] *)
+Ltac nhc_emit_tail c p ck Hck :=
+  match goal with
+  | |- context [nhc_udp_payload_mut_start ((?x :: ?h) ++ ?t)] =>
+      change x with (nhc_hb c p);
+      let hb := fresh "hb" in let Ehb := fresh "Ehb" in
+      remember (nhc_hb c p) as hb eqn:Ehb;
+      let Hp := fresh "Hp" in let Hc := fresh "Hc" in
+      assert (Hp : Z.land (Z.shiftr hb 0) 3 = p) by (subst hb; apply nhc_hb_ports; lia);
+      assert (Hc : Z.lor (Z.land hb 251) 0 = 240 + p) by (subst hb; rewrite nhc_hb_ck by lia; reflexivity);
+      unfold nhc_udp_payload_mut_start, nhc_udp_ports_size, nhc_udp_ports_field, nhc_get_field;
+      repeat hstep; rewrite Hp; unfold nhc_udp_ports_size_of; zfold; cbn [obind];
+      rewrite (wb_from_tail (hb :: h)) by reflexivity; cbn [obind];
+      rewrite (wb_set_slice_tail (hb :: h)) by (autorewrite with blen; zfold; lia); cbn [obind];
+      rewrite (wb_from_tail (hb :: h)) by reflexivity; cbn [obind];
+      rewrite Hck; cbn [obind];
+      change (if ck =? 0 then 65535 else ck) with (nhc_ck_tx ck);
+      let ck' := fresh "ck'" in remember (nhc_ck_tx ck) as ck';
+      unfold nhc_udp_set_checksum, nhc_udp_set_checksum_field, nhc_set_field, nhc_udp_ports_size,
+        nhc_udp_ports_field, nhc_get_field;
+      cfold; repeat hstep; rewrite Hc;
+      repeat hstep; cfold; unfold nhc_udp_ports_size_of; zfold; cbn [obind];
+      repeat hstep; cbn [omap]
+  end.
+
+Lemma nhc_udp_emit_exact r src dst payload ck h t :
+  nhc_ports_wf r = true -> bytes_ok h = true -> blen h = nhc_udp_header_len r -> blen t = blen payload ->
+  nhc_udp_cksum src dst (np_src r) (np_dst r) payload = Ok ck ->
+  nhc_udp_emit r src dst payload true (h ++ t) = Ok (nhc_udp_hdr_bytes r (nhc_ck_tx ck) ++ payload).
+Proof.
+  intros Hwf Hb Hl Ht Hck. destruct r as [sp dp]. unfold nhc_ports_wf in Hwf. cbn [np_src np_dst] in *. bsplit.
+  unfold nhc_udp_header_len, nhc_udp_hdr_bytes in *. cbn [np_src np_dst] in *.
+  unfold nhc_udp_emit, nhc_udp_set_ports. cbn [np_src np_dst].
+  destruct (nhc_port_4bit sp && nhc_port_4bit dp) eqn:M3.
+  - zfold_in Hl. apply (blen_length _ 4) in Hl. cells Hl. cbn [bytes_ok forallb] in Hb. bsplit.
+    unfold nhc_port_4bit in *. bsplit.
+    remember (Z.lor (Z.shiftl ((sp - 61616) mod 256) 4 mod 256) ((dp - 61616) mod 256)) as x1 eqn:Ex1.
+    unfold nhc_udp_set_dispatch_field, nhc_udp_set_ports_field, nhc_set_field. cfold.
+    repeat hstep.
+    nhc_emit_tail c 3 ck Hck.
+    rewrite nhc_44_bits in Ex1 by lia. subst x1. reflexivity.
+  - destruct (nhc_port_8bit sp) eqn:M2; [|destruct (nhc_port_8bit dp) eqn:M1]; cbn [orb] in Hl.
+    + zfold_in Hl. apply (blen_length _ 6) in Hl. cells Hl. cbn [bytes_ok forallb] in Hb. bsplit.
+      unfold nhc_port_8bit in *. bsplit.
+      remember ((sp - 61440) mod 256) as x1 eqn:Ex1.
+      unfold nhc_udp_set_dispatch_field, nhc_udp_set_ports_field, nhc_set_field. cfold.
+      repeat hstep.
+      nhc_emit_tail c 2 ck Hck.
+      subst x1. rewrite (Z.mod_small (sp - 61440)) by lia. reflexivity.
+    + zfold_in Hl. apply (blen_length _ 6) in Hl. cells Hl. cbn [bytes_ok forallb] in Hb. bsplit.
+      unfold nhc_port_8bit in *. bsplit.
+      remember ((dp - 61440) mod 256) as x1 eqn:Ex1.
+      unfold nhc_udp_set_dispatch_field, nhc_udp_set_ports_field, nhc_set_field. cfold.
+      repeat hstep.
+      nhc_emit_tail c 1 ck Hck.
+      subst x1. rewrite (Z.mod_small (dp - 61440)) by lia. reflexivity.
+    + zfold_in Hl. apply (blen_length _ 7) in Hl. cells Hl. cbn [bytes_ok forallb] in Hb. bsplit.
+      unfold nhc_udp_set_dispatch_field, nhc_udp_set_ports_field, nhc_set_field. cfold.
+      repeat hstep.
+      nhc_emit_tail c 0 ck Hck.
+      reflexivity.
+Qed.
+
+Lemma nhc_44_hi : forall a b, 0 <= a < 16 -> 0 <= b < 16 -> Z.shiftr (a * 16 + b) 4 = a.
+Proof. by_range2 16%nat 16%nat. Qed.
+Lemma nhc_44_lo : forall a b, 0 <= a < 16 -> 0 <= b < 16 -> Z.land (a * 16 + b) 15 = b.
+Proof. by_range2 16%nat 16%nat. Qed.
+
+Lemma be_dec_enc2_mod v : be_dec (be_enc2 v) = v mod 65536.
+Proof. unfold be_enc2. rewrite be_dec2. lia. Qed.
+
+Ltac nhc_eval :=
+  unfold nhc_udp_parse, nhc_udp_check_len, nhc_udp_payload, nhc_udp_checksum, nhc_udp_src_port, nhc_udp_dst_port,
+    nhc_udp_ports_size, nhc_udp_checksum_size, nhc_udp_dispatch_field, nhc_udp_checksum_field,
+    nhc_udp_ports_field, nhc_get_field;
+  autorewrite with blen; zfold; zbool;
+  repeat (first [progress cfold | progress (unfold nhc_udp_ports_size_of) | hstep | progress cbn [obind negb orb]]);
+  zbool; cbn [obind].
+
+Lemma nhc_udp_parse_bytes r ck payload src dst : nhc_ports_wf r = true -> 0 <= ck < 65536 ->
+  let b := nhc_udp_hdr_bytes r ck ++ payload in
+  nhc_udp_check_len b = Ok tt /\ nhc_udp_parse b src dst false = Ok r /\
+  nhc_udp_payload b = Ok payload /\ nhc_udp_checksum b = Ok (Some ck) /\
+  nhc_udp_src_port b = Ok (np_src r) /\ nhc_udp_dst_port b = Ok (np_dst r).
+Proof.
+  intros Hwf Hck. destruct r as [sp dp]. unfold nhc_ports_wf in Hwf. cbn [np_src np_dst] in *. bsplit.
+  pose proof (blen_nonneg payload) as Hp.
+  unfold nhc_udp_hdr_bytes. cbn [np_src np_dst]. cbv zeta.
+  destruct (nhc_port_4bit sp && nhc_port_4bit dp) eqn:M3.
+  - unfold nhc_port_4bit in *. bsplit.
+    remember ((sp - 61616) * 16 + (dp - 61616)) as x1 eqn:Ex1.
+    assert (Hhi : Z.shiftr x1 4 = sp - 61616) by (subst x1; apply nhc_44_hi; lia).
+    assert (Hlo : Z.land x1 15 = dp - 61616) by (subst x1; apply nhc_44_lo; lia).
+    unfold be_enc2. cbn [app].
+    change (243 :: x1 :: (ck / 256) mod 256 :: ck mod 256 :: payload)
+      with ([243; x1; (ck / 256) mod 256; ck mod 256] ++ payload).
+    nhc_eval. rewrite Hhi, Hlo, be_dec2.
+    rewrite (wb_from_tail [243; x1; (ck / 256) mod 256; ck mod 256]) by reflexivity.
+    repeat split; repeat f_equal; lia.
+  - destruct (nhc_port_8bit sp) eqn:M2; [|destruct (nhc_port_8bit dp) eqn:M1].
+    + unfold nhc_port_8bit in *. bsplit.
+      remember (sp - 61440) as x1 eqn:Ex1.
+      unfold be_enc2. cbn [app].
+      change (242 :: x1 :: (dp / 256) mod 256 :: dp mod 256 :: (ck / 256) mod 256 :: ck mod 256 :: payload)
+        with ([242; x1; (dp / 256) mod 256; dp mod 256; (ck / 256) mod 256; ck mod 256] ++ payload).
+      nhc_eval. rewrite !be_dec2.
+      rewrite (wb_from_tail [242; x1; (dp / 256) mod 256; dp mod 256; (ck / 256) mod 256; ck mod 256]) by reflexivity.
+      repeat split; repeat f_equal; lia.
+    + unfold nhc_port_8bit in *. bsplit.
+      remember (dp - 61440) as x1 eqn:Ex1.
+      unfold be_enc2. cbn [app].
+      change (241 :: (sp / 256) mod 256 :: sp mod 256 :: x1 :: (ck / 256) mod 256 :: ck mod 256 :: payload)
+        with ([241; (sp / 256) mod 256; sp mod 256; x1; (ck / 256) mod 256; ck mod 256] ++ payload).
+      nhc_eval. rewrite !be_dec2.
+      rewrite (wb_from_tail [241; (sp / 256) mod 256; sp mod 256; x1; (ck / 256) mod 256; ck mod 256]) by reflexivity.
+      repeat split; repeat f_equal; lia.
+    + unfold be_enc2. cbn [app].
+      change (240 :: (sp / 256) mod 256 :: sp mod 256 :: (dp / 256) mod 256 :: dp mod 256 :: (ck / 256) mod 256 :: ck mod 256 :: payload)
+        with ([240; (sp / 256) mod 256; sp mod 256; (dp / 256) mod 256; dp mod 256; (ck / 256) mod 256; ck mod 256] ++ payload).
+      nhc_eval. rewrite !be_dec2.
+      rewrite (wb_from_tail [240; (sp / 256) mod 256; sp mod 256; (dp / 256) mod 256; dp mod 256; (ck / 256) mod 256; ck mod 256]) by reflexivity.
+      repeat split; repeat f_equal; lia.
+Qed.
+
+(* ---------- no panic on arbitrary octets ---------- *)
+
+Lemma nhc_dispatch_total b : nhc_dispatch b <> Panic.
+Proof.
+  unfold nhc_dispatch. pose proof (blen_nonneg b).
+  destruct (blen b =? 0) eqn:E0; [discriminate|]. bsplit.
+  rewrite wb_get_u8_ok by lia. cbn [obind]. nopanic.
+Qed.
+
+Lemma nhc_udp_check_len_inv b : nhc_udp_check_len b = Ok tt ->
+  exists x, wb_get_u8 b 0 = Ok x /\
+    1 + nhc_udp_ports_size_of (Z.land (Z.shiftr x 0) 3) + (if Z.land (Z.shiftr x 2) 1 =? 0 then 2 else 0) <= blen b.
+Proof.
+  unfold nhc_udp_check_len, nhc_udp_ports_size, nhc_udp_checksum_size, nhc_udp_ports_field, nhc_udp_checksum_field,
+    nhc_get_field.
+  destruct (blen b =? 0) eqn:E0; [intros HH; discriminate HH|].
+  destruct (wb_get_u8 b 0) as [x| |] eqn:Ex; cbn [obind]; try (intros HH; discriminate HH).
+  match goal with |- context [?a >? ?c] => destruct (a >? c) eqn:E1 end; [intros HH; discriminate HH|].
+  intros _. exists x. split; [reflexivity|]. rewrite Z.gtb_ltb in E1. apply Z.ltb_ge in E1. exact E1.
+Qed.
+
+Lemma nhc_udp_check_len_total b : nhc_udp_check_len b <> Panic.
+Proof.
+  unfold nhc_udp_check_len, nhc_udp_ports_size, nhc_udp_checksum_size, nhc_udp_ports_field, nhc_udp_checksum_field,
+    nhc_get_field. pose proof (blen_nonneg b).
+  destruct (blen b =? 0) eqn:E0; [discriminate|]. bsplit.
+  rewrite wb_get_u8_ok by lia. cbn [obind]. nopanic.
+Qed.
+
+Lemma nhc_udp_accessors_safe b : nhc_udp_check_len b = Ok tt ->
+  nhc_udp_src_port b <> Panic /\ nhc_udp_dst_port b <> Panic /\ nhc_udp_checksum b <> Panic /\
+  nhc_udp_payload b <> Panic /\ nhc_udp_dispatch_field b <> Panic.
+Proof.
+  intros H. apply nhc_udp_check_len_inv in H. destruct H as (x & Ex & Hl).
+  unfold nhc_udp_src_port, nhc_udp_dst_port, nhc_udp_checksum, nhc_udp_payload, nhc_udp_dispatch_field,
+    nhc_udp_ports_size, nhc_udp_checksum_size, nhc_udp_ports_field, nhc_udp_checksum_field, nhc_get_field.
+  rewrite Ex. cbn [obind].
+  unfold nhc_udp_ports_size_of in *.
+  set (p := Z.land (Z.shiftr x 0) 3) in *. set (c := Z.land (Z.shiftr x 2) 1) in *.
+  destruct (p =? 0) eqn:P0; [|destruct (p =? 1) eqn:P1; [|destruct (p =? 2) eqn:P2]];
+    destruct (c =? 0) eqn:C0; cbn [orb obind];
+    (repeat split; try discriminate;
+     repeat first [ apply wb_get_be_nopanic; lia | apply wb_get_u8_nopanic; lia | apply wb_from_nopanic; lia
+                  | apply obind_nopanic; [|intros ? ?] | discriminate ]).
+Qed.
+
+Lemma nhc_udp_verify_total src dst sp dp payload c : blen payload < 65528 ->
+  nhc_udp_verify src dst sp dp payload c <> Panic.
+Proof.
+  intros Hl. unfold nhc_udp_verify, nhc_udp_len_overflow. pose proof (blen_nonneg payload).
+  replace (65535 <? blen payload mod 65536 + 8) with false by (symmetry; apply Z.ltb_ge; lia).
+  nopanic.
+Qed.
+
+Lemma nhc_udp_payload_len b p : nhc_udp_payload b = Ok p -> blen p <= blen b.
+Proof.
+  unfold nhc_udp_payload. intros H. obind_inv H. unfold wb_from in H.
+  destruct ((0 <=? 1 + v + v0) && (1 + v + v0 <=? blen b)) eqn:EE; [|discriminate H].
+  injection H as <-. bsplit. rewrite blen_skipn by lia. lia.
+Qed.
+
+(* UdpNhcRepr::parse (with or without checksum verification) never panics *)
+Lemma nhc_udp_parse_total b src dst rx : blen b < 65528 -> nhc_udp_parse b src dst rx <> Panic.
+Proof.
+  intros Hl. unfold nhc_udp_parse.
+  destruct (nhc_udp_check_len b) as [[]| |] eqn:E; cbn [obind]; try discriminate;
+    [|exfalso; exact (nhc_udp_check_len_total b E)].
+  destruct (nhc_udp_accessors_safe b E) as (Hs & Hd & Hc & Hp & Hdf).
+  apply obind_nopanic; [assumption|]. intros d _.
+  destruct (negb (d =? wsix_DISPATCH_UDP_HEADER)); [discriminate|].
+  apply obind_nopanic.
+  - destruct rx; [|discriminate].
+    apply obind_nopanic; [assumption|]. intros [c|] _; [|discriminate].
+    apply obind_nopanic; [assumption|]. intros pl Epl.
+    apply obind_nopanic; [assumption|]. intros sp _.
+    apply obind_nopanic; [assumption|]. intros dp _.
+    apply nhc_udp_verify_total. apply nhc_udp_payload_len in Epl. lia.
+  - intros _ _. apply obind_nopanic; [assumption|]. intros sp _.
+    apply obind_nopanic; [assumption|]. intros dp _. discriminate.
+Qed.
+
+(* ---------- the round trip, for ALL port values and payloads, ANY old buffer content ---------- *)
+
+Lemma nhc_udp_hdr_bytes_len r ck : blen (nhc_udp_hdr_bytes r ck) = nhc_udp_header_len r.
+Proof.
+  unfold nhc_udp_hdr_bytes, nhc_udp_header_len. cbv zeta.
+  destruct (nhc_port_4bit (np_src r) && nhc_port_4bit (np_dst r)); [reflexivity|].
+  destruct (nhc_port_8bit (np_src r)); [reflexivity|]. destruct (nhc_port_8bit (np_dst r)); reflexivity.
+Qed.
+
+Lemma nhc_ck_tx_range ck : 0 <= ck < 65536 -> 0 < nhc_ck_tx ck < 65536.
+Proof. unfold nhc_ck_tx. destruct (ck =? 0) eqn:E; bsplit; lia. Qed.
+
+Lemma nhc_ports_wf_inv r : nhc_ports_wf r = true -> 0 <= np_src r < 65536 /\ 0 <= np_dst r < 65536.
+Proof. unfold nhc_ports_wf. intros H. bsplit. lia. Qed.
+
+Lemma nhc_udp_roundtrip r src dst payload b :
+  nhc_ports_wf r = true -> is_arr 16 src = true -> is_arr 16 dst = true ->
+  bytes_ok payload = true -> blen payload < 65528 ->
+  bytes_ok b = true -> blen b = nhc_udp_header_len r + blen payload ->
+  exists ck bs,
+    nhc_udp_cksum src dst (np_src r) (np_dst r) payload = Ok ck /\
+    nhc_udp_emit r src dst payload true b = Ok bs /\
+    bs = nhc_udp_hdr_bytes r (nhc_ck_tx ck) ++ payload /\
+    nhc_udp_parse bs src dst false = Ok r /\
+    nhc_udp_payload bs = Ok payload /\
+    nhc_udp_checksum bs = Ok (Some (nhc_ck_tx ck)).
+Proof.
+  intros Hwf Hs Hd Hpb Hpl Hb Hl.
+  destruct (nhc_udp_cksum_ok src dst (np_src r) (np_dst r) payload Hpl) as (ck & Hck).
+  assert (Hr : 0 <= ck < 65536).
+  { destruct (nhc_ports_wf_inv r Hwf) as (Hsp & Hdp).
+    apply (nhc_udp_cksum_range src dst (np_src r) (np_dst r) payload ck); assumption. }
+  pose proof (blen_nonneg payload).
+  assert (Hn : 0 <= nhc_udp_header_len r <= blen b).
+  { pose proof (nhc_udp_hdr_bytes_len r 0). pose proof (blen_nonneg (nhc_udp_hdr_bytes r 0)). lia. }
+  destruct (split_hdr b (nhc_udp_header_len r) Hn) as (h & t & -> & Hh & Ht).
+  rewrite bytes_ok_app in Hb. apply andb_prop in Hb. destruct Hb as (Hbh & Hbt).
+  exists ck, (nhc_udp_hdr_bytes r (nhc_ck_tx ck) ++ payload).
+  split; [assumption|]. split.
+  - apply nhc_udp_emit_exact; try assumption; [unfold blen; lia | lia].
+  - split; [reflexivity|].
+    destruct (nhc_udp_parse_bytes r (nhc_ck_tx ck) payload src dst Hwf) as (_ & Hp & Hpay & Hcs & _).
+    { pose proof (nhc_ck_tx_range ck Hr). lia. }
+    auto.
+Qed.
+
+Lemma nhc_udp_emit_ignores_old_bytes r src dst payload b1 b2 :
+  nhc_ports_wf r = true -> is_arr 16 src = true -> is_arr 16 dst = true ->
+  bytes_ok payload = true -> blen payload < 65528 ->
+  bytes_ok b1 = true -> bytes_ok b2 = true ->
+  blen b1 = nhc_udp_header_len r + blen payload -> blen b2 = nhc_udp_header_len r + blen payload ->
+  nhc_udp_emit r src dst payload true b1 = nhc_udp_emit r src dst payload true b2.
+Proof.
+  intros Hwf Hs Hd Hpb Hpl H1 H2 L1 L2.
+  destruct (nhc_udp_roundtrip r src dst payload b1 Hwf Hs Hd Hpb Hpl H1 L1) as (ck1 & bs1 & C1 & E1 & -> & _).
+  destruct (nhc_udp_roundtrip r src dst payload b2 Hwf Hs Hd Hpb Hpl H2 L2) as (ck2 & bs2 & C2 & E2 & -> & _).
+  rewrite E1, E2. congruence.
+Qed.
+
+(* ---------- the receiver's checksum verification accepts what the sender emits ---------- *)
+
+Lemma wb_propagate_spec w : 0 <= w < 4294967296 ->
+  wb_propagate_carries w = if w =? 0 then 0 else (w - 1) mod 65535 + 1.
+Proof.
+  intros Hw. unfold wb_propagate_carries. cbv zeta. destruct (w =? 0) eqn:E; bsplit.
+  - subst. reflexivity.
+  - lia.
+Qed.
+
+Lemma nhc_udp_verify_accepts src dst sp dp payload ck :
+  is_arr 16 src = true -> is_arr 16 dst = true -> 0 <= sp < 65536 -> 0 <= dp < 65536 ->
+  bytes_ok payload = true -> blen payload < 65528 ->
+  nhc_udp_cksum src dst sp dp payload = Ok ck ->
+  nhc_udp_verify src dst sp dp payload (nhc_ck_tx ck) = Ok tt.
+Proof.
+  intros Hs Hd Hsp Hdp Hb Hl. unfold nhc_udp_cksum, nhc_udp_verify, nhc_udp_len_overflow.
+  pose proof (blen_nonneg payload).
+  pose proof (wb_pseudo_header_range src dst nhc_PROTO_UDP ((blen payload + 8) mod 4294967296) Hs Hd
+                ltac:(unfold nhc_PROTO_UDP; lia)) as Hph.
+  pose proof (wb_cksum_data_range payload Hb ltac:(lia)) as Hdat.
+  replace (65535 <? blen payload mod 65536 + 8) with false by (symmetry; apply Z.ltb_ge; lia).
+  intros HH. injection HH as <-.
+  unfold wb_cksum_combine. rewrite fold_left_app. cbn [fold_left].
+  unfold nhc_udp_sum_words in *. cbv zeta in *. cbn [fold_left] in *.
+  set (S := 0 + wb_pseudo_header src dst nhc_PROTO_UDP ((blen payload + 8) mod 4294967296) + sp + dp +
+            (blen payload mod 65536 + 8) + wb_cksum_data payload) in *.
+  assert (HS : 0 <= S < 4294967296 - 65536) by (subst S; lia).
+  rewrite (wb_propagate_spec S) by lia.
+  unfold nhc_ck_tx.
+  destruct (S =? 0) eqn:ES.
+  - bsplit. rewrite ES. cbn. reflexivity.
+  - bsplit.
+    destruct (65535 - ((S - 1) mod 65535 + 1) =? 0) eqn:E0; bsplit.
+    + rewrite wb_propagate_spec by lia. zbool. cbn [orb negb]. reflexivity.
+    + rewrite wb_propagate_spec by lia. zbool. cbn [orb negb]. reflexivity.
+Qed.
+
+Lemma nhc_udp_roundtrip_verified r src dst payload ck :
+  nhc_ports_wf r = true -> is_arr 16 src = true -> is_arr 16 dst = true ->
+  bytes_ok payload = true -> blen payload < 65528 ->
+  nhc_udp_cksum src dst (np_src r) (np_dst r) payload = Ok ck ->
+  nhc_udp_parse (nhc_udp_hdr_bytes r (nhc_ck_tx ck) ++ payload) src dst true = Ok r.
+Proof.
+  intros Hwf Hs Hd Hpb Hpl Hck.
+  destruct (nhc_ports_wf_inv r Hwf) as (Hsp & Hdp).
+  pose proof (nhc_udp_cksum_range src dst _ _ payload ck Hs Hd Hsp Hdp Hpb Hpl Hck) as Hr.
+  pose proof (nhc_ck_tx_range ck Hr) as Hr'.
+  destruct (nhc_udp_parse_bytes r (nhc_ck_tx ck) payload src dst Hwf ltac:(lia)) as (Hcl & Hp & Hpay & Hcs & Hsp' & Hdp').
+  cbv zeta in *.
+  unfold nhc_udp_parse in *. rewrite Hcl in *. cbn [obind] in *.
+  destruct (nhc_udp_dispatch_field _) as [d| |]; cbn [obind] in *; try discriminate Hp.
+  destruct (negb (d =? wsix_DISPATCH_UDP_HEADER)); [discriminate Hp|].
+  rewrite Hcs, Hpay, Hsp', Hdp'. cbn [obind].
+  rewrite (nhc_udp_verify_accepts src dst _ _ payload ck Hs Hd Hsp Hdp Hpb Hpl Hck). cbn [obind].
+  destruct r; reflexivity.
+Qed.
+
+Lemma sixfrag_no_panic b :
+  sixlowpan_dispatch b <> Panic /\ sixfrag_new_checked b <> Panic /\ sixfrag_parse b <> Panic.
+Proof.
+  split; [apply sixlowpan_dispatch_total|]. split; [apply sixfrag_new_checked_total | apply sixfrag_parse_total].
+Qed.
+
+Lemma nhc_udp_no_panic b src dst rx : blen b < 65528 ->
+  nhc_dispatch b <> Panic /\ nhc_udp_check_len b <> Panic /\ nhc_udp_parse b src dst rx <> Panic /\
+  (nhc_udp_check_len b = Ok tt ->
+     nhc_udp_src_port b <> Panic /\ nhc_udp_dst_port b <> Panic /\ nhc_udp_checksum b <> Panic /\
+     nhc_udp_payload b <> Panic /\ nhc_udp_dispatch_field b <> Panic).
+Proof.
+  intros Hl. split; [apply nhc_dispatch_total|]. split; [apply nhc_udp_check_len_total|].
+  split; [apply nhc_udp_parse_total; assumption | apply nhc_udp_accessors_safe].
 Qed.
